@@ -777,7 +777,7 @@ static Profile P_C13() { Profile p; p.name = "c13"; p.oracles = O_C13; p.w_retun
 // written in between, parameter sets added and activated
 static Profile P_C09() { Profile p; p.name = "c09"; p.oracles = O_C09; p.w_rotate = 5; p.w_addbp = 2; p.w_setactive = 3; p.w_write = 3; p.small_blocks = true; p.max_sets = 4; return p; }
 static Profile P_C14() { Profile p = P_C02(); p.name = "c14"; p.oracles = O_C14 | O_C01 | O_C02 | O_C10; p.big_strings = true; p.force_compression = true; p.w_rotate = 3; return p; }
-static Profile P_C17() { Profile p; p.name = "c17"; p.oracles = O_C17 | O_C01; p.w_retune = 2; p.w_rotate = 1; p.hint_modes = false; p.w_mm = 6; p.w_aec = 1; p.pres_fixed = 5; return p; }
+static Profile P_C17() { Profile p; p.name = "c17"; p.oracles = O_C17 | O_C01; p.w_ext = 2; p.w_retune = 2; p.w_rotate = 1; p.hint_modes = false; p.w_mm = 6; p.w_aec = 1; p.pres_fixed = 5; return p; }
 
 // ---- C13: outputs that receive very many blocks (per-output block counters must not wrap) ---------------------
 // max_block_items = 1, one tiny record per block; counts around 2^16 (and 2 * 2^16) x {rotation with export, rotation without
